@@ -24,7 +24,8 @@ C05 line-protocol driver.   One case = one line of three or four fields:
 
 Answer:  `t=<id.path.err,…|-> s=<status|->`   (err = `n` or the status in the request context;
          `err/repl` when the `{http.error.status_code}` placeholder the handler saw differs from it;
-         `path!uri` when the RequestURI the handler saw differs from its URL path)
+         `path!uri` when the RequestURI the handler saw differs from its URL path; `H` = an interim
+         `WriteHeader(103)` by static_response)
 -/
 import CaddyModel.Util.Hex
 import CaddyModel.C05.Model
@@ -109,7 +110,7 @@ def srcNo : Src → Nat
 
 /-- literal statuses the harness configures: `lo..599` -/
 def srcOk (lo : Nat) : Src → Bool
-  | .lit n => lo ≤ n && n ≤ 599
+  | .lit n => (lo ≤ n && n ≤ 599) || (lo == 200 && n == 103)   -- static_response also: 103 Early Hints
   | _ => true
 
 mutual
@@ -247,6 +248,7 @@ def showErr : Option Nat → String
 def showTrace (t : Trace) : String :=
   if t.isEmpty then "-" else
   ",".intercalate (t.map fun e =>
+    if e == hintEv then "H" else
     let p := if e.uri == e.path then toString e.path else s!"{e.path}!{e.uri}"
     if e.repl == e.err then s!"{e.id}.{p}.{showErr e.err}"
     else s!"{e.id}.{p}.{showErr e.err}/{showErr e.repl}")
